@@ -267,3 +267,15 @@ func VH_PL_PollHandler() {
 		vx.Assert(len(w.written) == 1 && vx.BytesStr(w.written[0]) == "data: "+vx.BytesStr(body)+"\n\n" && w.flushes >= 2, "C20:message-relayed-as-one-event-verbatim")
 	}
 }
+
+// VH_PL_PollStop (C18 shutdown clause / C12): stopping the transport closes its queues and shuts the
+// listener side down gracefully; it neither panics nor leaves a queue open.
+func VH_PL_PollStop() {
+	sq, connect, disconnect := make(chan *aio.Message, 1), make(chan *connection, 1), make(chan *connection, 1)
+	p := &Poll{sq: sq, connect: connect, disconnect: disconnect, server: &PollServer{config: &Config{Timeout: 10000000000}, server: &http.Server{}}}
+	err := p.Stop()
+	vx.Assert(err == nil, "C18:stop-returns")
+	vx.Assert(vx.Lifecycle() == "http.Shutdown", "C18:stop-shuts-the-listener-side-down-gracefully")
+	vx.Assert(vx.ChanClosed(sq) && vx.ChanClosed(connect) && vx.ChanClosed(disconnect), "C18:stop-closes-its-queues")
+	vx.Reach("done")
+}
